@@ -156,7 +156,16 @@ let run_disp toks =
                 | _ -> failwith "disp: bad S")
             | 'D' -> b.dgrams <- b.dgrams @ [parse_dgram (String.split_on_char ',' rest)]; ("-", [])
             | 'G' -> (match String.split_on_char ',' rest with
-                | a :: _ -> b.dgrams <- b.dgrams @ [(z_of_string a, None)]; ("-", [])
+                | [a; hex] ->
+                  (* raw bytes off the wire: the dispatcher parses them with UtpMessage::deserialize - model:
+                     the extracted wire model msg_deserialize (Wire/Header.v, property C11) composed with the
+                     dispatcher model; anything it rejects is dropped *)
+                  let n = String.length hex / 2 in
+                  let bytes = List.init n (fun i -> z_of_int (int_of_string ("0x" ^ String.sub hex (2 * i) 2))) in
+                  let m = (match msg_deserialize bytes with
+                      | MsgSome (h, _) -> Some { dm_type = h.h_type; dm_conn = h.h_conn; dm_seq = h.h_seq; dm_ack = h.h_ack }
+                      | MsgNone | MsgPanic -> None) in
+                  b.dgrams <- b.dgrams @ [(z_of_string a, m)]; ("-", [])
                 | _ -> failwith "disp: bad G")
             | 'R' ->
               let want = String.sub rest 0 1 and script = String.sub rest 1 (String.length rest - 1) in
